@@ -316,7 +316,7 @@ class Body:
         owns = sorted({b_.split("::")[-1] for b_ in bases if re.match(r"^\w+$", b_.split("::")[-1])})
         # only where a string refers to THIS function: its full path (a recursive call, its closures' paths) and its name in the
         # compiler's `{async fn body of ..name()}` / `name::{closure#k}` type strings - not another function that shares the name
-        full_re = re.compile("|".join(re.escape(b_) for b_ in bases)) if bases else None
+        full_re = re.compile("(?:%s)(?![A-Za-z0-9_])" % "|".join(re.escape(b_) for b_ in bases)) if bases else None
         own_re = re.compile(r"\b(%s)(?=\(\)|::\{closure#|::<[^>]*>::promoted|::promoted)" % "|".join(re.escape(o) for o in owns)) if owns else None
 
         def ty(t):
@@ -1146,10 +1146,10 @@ class Program:
             return
         os.environ["VERIF_NO_INLINE_TMP"] = "1"
         try:
-            for p in sorted(self.new_fns):
+            def try_one(p):
                 b = self.bodies.get(p)
                 if b is None or b.raw is None:
-                    continue
+                    return
                 tmp = Body(self, b.raw)
                 tmp._reviewed_names = None
                 tmp._hash_only = True
@@ -1157,7 +1157,7 @@ class Program:
                 h, _ = tmp.struct_hash()
                 olds = sorted(missing.get(h, ()))
                 if not olds:
-                    continue
+                    return
                 self.fn_renamed.append((p, olds))
                 first = olds[0]
                 self.fn_alias[p] = first
@@ -1182,6 +1182,14 @@ class Program:
                                 cp.parent = old + cp.parent[len(p):]
                             self.bodies[nq] = cp
                 self.new_fns.discard(p)
+
+            # to a fixpoint: a renamed function that calls another renamed function matches only once its callee is mapped back
+            for _round in range(4):
+                before = len(self.fn_renamed)
+                for p in sorted(self.new_fns):
+                    try_one(p)
+                if len(self.fn_renamed) == before:
+                    break
         finally:
             os.environ.pop("VERIF_NO_INLINE_TMP", None)
         self.coroutine_paths = {p for p, b in self.bodies.items() if b.coroutine}
